@@ -564,6 +564,26 @@ LEAF_SCHEMAS = [
     "schema.dict({'a': schema.dict({'b': schema.list(schema.float(1.0).precision(1))})})",
 ]
 
+# every kind of parameter with a falsy / zero / empty value (0, 0.0, -0.0, "", b"", False, [], {}):
+# a declared falsy parameter is still a declared parameter
+FALSY_SCHEMAS = [
+    "schema.bool(False)", "schema.int(0)", "schema.int(False)", "schema.int.min(0)", "schema.int.max(0)",
+    "schema.int.min(0).max(0)", "schema.float(0.0)", "schema.float(-0.0)", "schema.float.min(0.0)",
+    "schema.float.max(0.0)", "schema.float.max(-0.0)", "schema.float(0.0).precision(1)", "schema.float.min(0.0).precision(1)",
+    "schema.float(0.5).precision(1)", "schema.str('')", "schema.str.len(0)", "schema.str.len(0, ...)", "schema.str.len(..., 0)",
+    "schema.str.len(0, 0)", "schema.str.len(0, 1)", "schema.str.alphabet('')", "schema.str.contains('')",
+    "schema.str.alphabet('').len(0)", "schema.str.alphabet('ab').contains('')", "schema.str.regex('')", "schema.str.regex('^$')",
+    "schema.bytes(b'')", "schema.list([])", "schema.list.len(0)", "schema.list.len(0, ...)", "schema.list.len(..., 0)",
+    "schema.list.len(0, 0)", "schema.list.len(0, 1)", "schema.list(schema.int).len(0)", "schema.list(schema.int).len(..., 0)",
+    "schema.list(schema.int).len(0, 0)", "schema.list([...]).len(0)", "schema.list([...]).len(..., 0)",
+    "schema.list([schema.int, ...]).len(..., 1)", "schema.list([..., schema.int]).len(1, 1)", "schema.dict({})",
+    "schema.dict({...: ...})", "schema.dict({'': schema.int})", "schema.dict({0: schema.int})", "schema.dict({False: schema.int})",
+    "schema.dict({None: schema.none})", "schema.dict({optional(''): schema.str('')})", "schema.any(schema.int(0), schema.str(''))",
+    "schema.any(schema.none)", "schema.alias('', schema.int(0))",
+    "schema.dict({'a': schema.list.len(..., 0), 'b': schema.str.len(0, 0)})", "schema.list(schema.list.len(0, 0))",
+    "schema.list([schema.str.len(..., 0), ...])",
+]
+
 UNRELATED = [None, True, 0, 1, -1, 1.5, "", "a", b"a", [], [1], {}, {"a": 1}, UUIDS[0], DATETIMES[0],
              DATES[0], [None], {"a": None}, 2 ** 70, math.nan]
 
